@@ -379,5 +379,10 @@ def post_batch(tier, seed):
         if v is not None:
             return {"violation": {"arm": "real multiprocessing.Pool (schedule not controlled; replay = re-run, best effort)",
                                   **v}}
+    from . import startmethod
+    sm = startmethod.run(tier, seed, "search")
+    if "violation" in sm:
+        return sm
     return {"evidence": {"real_pool_arm": {"searches": n, "wall_s": round(time.time() - t0, 2),
-                                           "note": "real multiprocessing.Pool; serial and parallel outcomes compared by value"}}}
+                                           "note": "real multiprocessing.Pool; serial and parallel outcomes compared by value"},
+                         **sm["evidence"]}}
